@@ -125,4 +125,29 @@ def _sweep_stage(ctx):
                               limit=ctx.budget.get("sweep_limit", 600), label="one long preemption per line of state.py: " + label)
 
 
-install(globals(), props=("C11",), cases=cases, nontrivial=nontrivial, classes=classes, stages=(_fault_stage, _sweep_stage))
+def _rebuild_errors(ctx):
+    """A context recorded as SUCCEEDED with ReplayChildren (result above the patched limit) whose body, run again in a
+    later invocation to rebuild the result, raises - an ordinary error, an SDK error, or an invocation-level error that
+    makes the handler raise for a Lambda retry: whatever the error, no FAIL may be sent for the completed context."""
+    from .. import wfcheck as WC
+    from .c03 import _S
+
+    n = 0
+    i = 0
+    for cls in ("InvocationError", "StepInterruptedError", "UserError", "ExecutionError", "CallableRuntimeError"):
+        for inner in (False, True):
+            for tail in ([{"op": "wait", "secs": 1}, _S(9)], [{"op": "callback", "between": []}]):
+                i += 1
+                if ctx.nshards > 1 and i % ctx.nshards != ctx.shard % ctx.nshards:
+                    continue
+                boom = {"op": "raise", "exc": {"cls": cls, "msg": "gone"}, "from_inv": 1}
+                body_in = [_S(1), boom, _S(2)]
+                child = {"op": "child", "body": [{"op": "child", "body": body_in, "pad": 400}, _S(3)] if inner else body_in, "pad": 400}
+                case = {"prog": {"body": [child] + tail}, "limits": {"checkpoint": 300}, "backend": {"response": "delta"}, "plan": {"crashes": []},
+                        "sched": [{"mode": "seq"}], "line": [], "max_raises": 2}
+                WC.report_case(ctx, case, PROPS, nontrivial=nontrivial, classes=lambda r, c: ["directed:error-while-rebuilding-replay-children-context"] + classes(r, c))
+                n += 1
+    ctx.extra["rebuild_error_cases"] = n
+
+
+install(globals(), props=("C11",), cases=cases, nontrivial=nontrivial, classes=classes, stages=(_fault_stage, _rebuild_errors, _sweep_stage))
